@@ -29,6 +29,7 @@ RULE = (
     "when an Integer limit lies within 2 of a type boundary or is negative, or when a name is a keyword; distinct by "
     "hash of (dialect, table, rows)."
     "Data formats Delimited / Fixed / Excel / ODS. The same fields (text-like ones with an empty value of their own) and checks are added by program (add_field_format / add_check): names, quoting, types and nullability must be those of the CID read from rows."
+    "A factory created before the fields were added must write the same statement."
 )
 ASSUMPTIONS = [
     "the keyword set of a dialect is the union of the words recorded in vlib/sql_keywords.json (taken from the "
